@@ -3,7 +3,7 @@
    What _message_to_payload does on each kind of decoder failure (invalid UTF-8, invalid JSON,
    nesting beyond the recursion limit, integers beyond the digit limit) is not hand-written: it
    is the table measured from the running code (gen/Gen_jsonrpc.v). *)
-From AV Require Import Base Utf8 Json Gen_jsonrpc Codec Conn ConnProofs.
+From AV Require Import Base Utf8 Json Gen_jsonrpc Codec Conn ConnProofs ConnCode ConnCodeProofs.
 
 Theorem C05_decoder_failure_table :
   dfail_utf8 = Some (-32700)%Z /\ dfail_json = Some (-32700)%Z /\
@@ -38,8 +38,22 @@ Example C05_ex :
   = RProtoErr (-32600)%Z None.
 Proof. vm_compute. reflexivity. Qed.
 
+(* receive_message as the SOURCE has it (translated on every run, gen/Gen_jsonrpc.v: receive_message_code and the two
+   response paths) is the model's receive_message, for every connection state and every byte string - so the theorems
+   above, which are about the model, speak about the dispatcher, the ProtocolError handler and the response paths as
+   they are written today; in particular the run of the translated code never ends in an escaping exception *)
+Theorem C05_receive_message_from_source : forall c msg,
+  receive_message_generated c msg = MFinished (receive_message c msg).
+Proof. exact generated_receive_message_is_model. Qed.
+
+Theorem C05_translated_receive_total : forall c msg,
+  exists o c', receive_message_generated c msg = MFinished (o, c') /\ o <> REscape.
+Proof. exact translated_receive_total. Qed.
+
 Print Assumptions C05_decoder_failure_table.
 Print Assumptions C05_receive_total.
 Print Assumptions C05_reply_unless_response.
 Print Assumptions C05_error_reply_wellformed.
 Print Assumptions C05_never_wedged.
+Print Assumptions C05_receive_message_from_source.
+Print Assumptions C05_translated_receive_total.
